@@ -405,6 +405,7 @@ func ParsePacket(flowMessage ProtoProducerMessageIf, data []byte, config PacketL
 	nextParser = parserEthernet // initial parser
 	callsLayer := make(map[int]int)
 	calls := make(map[int]int)
+	encapIndex := nextParser.LayerIndex // layer index the next layer is compared with
 
 	for nextParser.Parser != nil && len(data) >= offset { // check that a next parser exists and there is enough data to read
 		parseConfig.Calls = calls[nextParser.ParserIndex]
@@ -439,10 +440,16 @@ func ParsePacket(flowMessage ProtoProducerMessageIf, data []byte, config PacketL
 		fm := flowMessage.GetFlowMessage()
 		fm.LayerSize = append(fm.LayerSize, uint32(res.Size))
 
-		// compares the next layer index with current to determine if it's an encapsulation
-		// IP over IP is the equals case
-		// except if layer is skipping comparison (will be compared after). For instance IPv6 Fragment Header, dot1q and MPLS cannot trigger encap
-		if !res.NextParser.EncapSkip && res.NextParser.LayerIndex <= nextParser.LayerIndex {
+		// compares the next layer index with the last layer that takes part in the comparison to determine
+		// if it's an encapsulation. IP over IP is the equals case.
+		// Layers skipping comparison (IPv6 Fragment Header, dot1q and MPLS) cannot trigger encap by repeating
+		// their own level and do not become the reference: the layer after them is compared with the layer
+		// before them (GRE + MPLS + IP: the inner IP is below GRE), and they are themselves encapsulated
+		// when they sit below that reference (MPLS inside GRE).
+		if !nextParser.EncapSkip {
+			encapIndex = nextParser.LayerIndex
+		}
+		if res.NextParser.LayerIndex < encapIndex || (!res.NextParser.EncapSkip && res.NextParser.LayerIndex == encapIndex) {
 			parseConfig.Encapsulated = true
 		}
 
